@@ -118,7 +118,7 @@ theorem ppCands_count_one (possible : List ChordV2) (layer : Nat) (st : PP) (pre
 
 /-- what the loop has done so far, relative to the active chords `A0` it started with: nothing, or
 exactly one activation of an enabled table chord that matches the accumulated presses exactly -/
-structure LoopInv (possible : List ChordV2) (layer since : Nat) (relFound : Bool) (A0 : List ActiveChord) (st : PP) : Prop where
+structure LoopInv (possible : List ChordV2) (layer since : Nat) (relFound : Option Nat) (A0 : List ActiveChord) (st : PP) : Prop where
   notDone : st.done = false → st.active = A0
   act : st.active = A0 ∨
     ∃ cch coord, cch ∈ possible ∧ enabledOn layer cch = true ∧ exactMatch st.acc cch = true ∧
@@ -132,7 +132,7 @@ theorem pushActive_ok {active a : List ActiveChord} {ach : ActiveChord} (h : pus
   · rename_i hl; cases h; exact ⟨hl, rfl⟩
   · cases h
 
-theorem ppStep_inv (possible : List ChordV2) (layer since : Nat) (relFound : Bool) (minIdle : Nat)
+theorem ppStep_inv (possible : List ChordV2) (layer since : Nat) (relFound : Option Nat) (minIdle : Nat)
     (A0 : List ActiveChord) (st st' : PP) (press : Nat)
     (hi : LoopInv possible layer since relFound A0 st)
     (h : ppStep possible layer since relFound minIdle st press = .ok st') :
@@ -162,7 +162,7 @@ theorem ppStep_inv (possible : List ChordV2) (layer since : Nat) (relFound : Boo
         · rename_i a hp
           cases h
           obtain ⟨hl, ha⟩ := pushActive_ok hp
-          refine ⟨(fun hh => by cases hh), Or.inr ⟨cch, st.nextCoord, hmem.1, hmem.2, hex, hA ▸ hl, ?_⟩, (fun c hc => by cases hc)⟩
+          refine ⟨(fun hh => by cases hh), Or.inr ⟨cch, freeCoord st.active st.nextCoord, hmem.1, hmem.2, hex, hA ▸ hl, ?_⟩, (fun c hc => by cases hc)⟩
           simp only [ha, hA]
       · cases h
         exact ⟨(fun hh => by cases hh), Or.inl hA, (fun c hc => by cases hc)⟩
@@ -179,7 +179,7 @@ theorem ppStep_inv (possible : List ChordV2) (layer since : Nat) (relFound : Boo
           cases h
           obtain ⟨hl, ha⟩ := pushActive_ok hp
           obtain ⟨m1, m2, m3⟩ := hco x (by simp)
-          refine ⟨(fun hh => by cases hh), Or.inr ⟨x, st.nextCoord, m1, m2, ?_, hA ▸ hl, ?_⟩, hco⟩
+          refine ⟨(fun hh => by cases hh), Or.inr ⟨x, freeCoord st.active st.nextCoord, m1, m2, ?_, hA ▸ hl, ?_⟩, hco⟩
           · simp only [exactMatch, m3, hcomp, Bool.and_self]
           · simp only [ha, hA]
       · cases h
@@ -188,7 +188,7 @@ theorem ppStep_inv (possible : List ChordV2) (layer since : Nat) (relFound : Boo
       cases h
       exact ⟨(fun _ => hA), Or.inl hA, hco⟩
 
-theorem ppStep_no_err (possible : List ChordV2) (layer since : Nat) (relFound : Bool) (minIdle : Nat)
+theorem ppStep_no_err (possible : List ChordV2) (layer since : Nat) (relFound : Option Nat) (minIdle : Nat)
     (st : PP) (press : Nat) (c : Crash) : ppStep possible layer since relFound minIdle st press ≠ .error c := by
   intro h
   unfold ppStep at h
@@ -214,7 +214,7 @@ theorem ppStep_no_err (possible : List ChordV2) (layer since : Nat) (relFound : 
     · simp only at h
       cases h
 
-theorem ppLoop_inv (possible : List ChordV2) (layer since : Nat) (relFound : Bool) (minIdle : Nat)
+theorem ppLoop_inv (possible : List ChordV2) (layer since : Nat) (relFound : Option Nat) (minIdle : Nat)
     (A0 : List ActiveChord) : ∀ (presses : List Nat) (st st' : PP),
     LoopInv possible layer since relFound A0 st →
     ppLoop possible layer since relFound minIdle presses st = .ok st' →
@@ -230,7 +230,7 @@ theorem ppLoop_inv (possible : List ChordV2) (layer since : Nat) (relFound : Boo
     · rename_i st1 hs
       exact ih st1 st' (ppStep_inv possible layer since relFound minIdle A0 st st1 p hi hs) h
 
-theorem ppLoop_no_err (possible : List ChordV2) (layer since : Nat) (relFound : Bool) (minIdle : Nat) :
+theorem ppLoop_no_err (possible : List ChordV2) (layer since : Nat) (relFound : Option Nat) (minIdle : Nat) :
     ∀ (presses : List Nat) (st : PP) (c : Crash), ppLoop possible layer since relFound minIdle presses st ≠ .error c := by
   intro presses
   induction presses with
@@ -243,7 +243,7 @@ theorem ppLoop_no_err (possible : List ChordV2) (layer since : Nat) (relFound : 
     · exact ih _ _ h
 
 /-- the block after the loop keeps the invariant's `act` part: still at most one activation -/
-theorem ppFinal_act (possible : List ChordV2) (layer since : Nat) (relFound : Bool) (minIdle : Nat)
+theorem ppFinal_act (possible : List ChordV2) (layer since : Nat) (relFound : Option Nat) (minIdle : Nat)
     (A0 : List ActiveChord) (st : PP) (hi : LoopInv possible layer since relFound A0 st) :
     let st' := ppFinal possible layer since relFound minIdle A0.length st
     st'.acc = st.acc ∧
@@ -272,13 +272,13 @@ theorem ppFinal_act (possible : List ChordV2) (layer since : Nat) (relFound : Bo
       · exact ⟨rfl, Or.inl hA⟩
       · rename_i a hp
         obtain ⟨hl, ha⟩ := pushActive_ok hp
-        exact ⟨rfl, Or.inr ⟨cch, st.nextCoord, hposs, hmem.2, hex, hA ▸ hl, by simp only [ha, hA]⟩⟩
+        exact ⟨rfl, Or.inr ⟨cch, freeCoord st.active st.nextCoord, hposs, hmem.2, hex, hA ▸ hl, by simp only [ha, hA]⟩⟩
     · exact ⟨rfl, Or.inl hA⟩
   · exact ⟨rfl, hi.act⟩
 
 /-! ### the accumulated presses are a prefix of the pressed keys (in press order) -/
 
-theorem ppStep_acc (possible : List ChordV2) (layer since : Nat) (relFound : Bool) (minIdle : Nat)
+theorem ppStep_acc (possible : List ChordV2) (layer since : Nat) (relFound : Option Nat) (minIdle : Nat)
     (st st' : PP) (press : Nat) (pre : List Nat)
     (hi : (st.done = false → st.acc = pre) ∧ st.acc <+: pre)
     (h : ppStep possible layer since relFound minIdle st press = .ok st') :
@@ -310,7 +310,7 @@ theorem ppStep_acc (possible : List ChordV2) (layer since : Nat) (relFound : Boo
     · simp only at h
       cases h; exact ⟨(fun _ => by simp only [hA]), by simp only [hA]; exact List.prefix_refl _⟩
 
-theorem ppLoop_acc (possible : List ChordV2) (layer since : Nat) (relFound : Bool) (minIdle : Nat) :
+theorem ppLoop_acc (possible : List ChordV2) (layer since : Nat) (relFound : Option Nat) (minIdle : Nat) :
     ∀ (presses : List Nat) (st st' : PP) (pre : List Nat),
     (st.done = false → st.acc = pre) ∧ st.acc <+: pre →
     ppLoop possible layer since relFound minIdle presses st = .ok st' →
